@@ -834,7 +834,10 @@ func lzScript(n int, periods []int, rich map[int]bool, r *rand.Rand) []op {
 			continue
 		}
 		sd := int(r.Int31())
-		ops = append(ops, bop("blz", "steps", n, p, sd), bop("blz", "steps", n, p, sd+1), bop("blz", "runs", n, p, sd+2))
+		ops = append(ops, bop("blz", "steps", n, p, sd), bop("blz", "steps", n, p, sd+1))
+		if p == 6000 || p == 12000 || p == 1<<14 {
+			ops = append(ops, bop("blz", "runs", n, p, sd+2)) // slow to compress: few of them
+		}
 	}
 	return ops
 }
@@ -877,9 +880,12 @@ func genScale() {
 	}
 	for _, n := range bigs {
 		ops := []op{bop("blz", "rnd", n, 1, int(r.Int31())), bop("blz", "seq", n, 1, 0), bop("blz", "const", n, 1, 9),
-			bop("blz", "const", n, 1, 0xFFFFFFFF), bop("blz", "steps", n, 12000, 0), bop("blz", "steps", n, 1<<14-1, 3), bop("blz", "runs", n, 6000, 1),
+			bop("blz", "const", n, 1, 0xFFFFFFFF), bop("blz", "steps", n, 12000, 0), bop("blz", "steps", n, 1<<14-1, 3),
 			bop("blz", "per", n, 1<<14, int(r.Int31())), bop("blz", "per", n, 1<<16, int(r.Int31())),
 			bop("blz", "perb", n, 1<<16, int(r.Int31())), bop("blz", "mix", n, 1<<14, int(r.Int31()))}
+		if thorough {
+			ops = append(ops, bop("blz", "runs", n, 6000, 1))
+		}
 		runBig("lz", ops, lim)
 	}
 	// ---- arenas
